@@ -162,6 +162,20 @@ def run(ctx):
                             raise AnalysisError("exec handler no longer calls _check_pending_job and _get_cache", "Scheduler._exec_job_main_thread")
                         ok = all(cfg.dominates(t, l) for l in lookups)
     r4.check(ok, f"{m.rel}:Scheduler._exec_job_main_thread:context_hash", "job.context_hash is not computed from job.get_context() (when non-empty) before the dedup and cache lookups", m.rel, ex.lineno)
+    # every value the handler stores in job.context_hash is the hash of the job's OWN context: a hash taken from another job (the parent may be a
+    # JobEnv that proxies the caller's hash while carrying the callee's context) keys the call under a context it did not run with
+    for s_ in cfg.nodes:
+        if s_.kind == "stmt" and isinstance(s_.ast, ast.Assign) and any(src(x) == f"{jobvar}.context_hash" for x in s_.ast.targets):
+            v = s_.ast.value
+            own = (isinstance(v, ast.Call) and last_attr(v) == "get_hash" and v.args and src(v.args[0]) in ctxvars) or (isinstance(v, ast.Constant) and v.value is None)
+            r4.check(
+                bool(own),
+                f"{m.rel}:Scheduler._exec_job_main_thread:context_hash-source",
+                f"`{src(s_.ast)}` stores a context hash that is not the hash of {jobvar}.get_context(): the job is de-duplicated, looked up in the cache and tagged under a context it does not run with "
+                "(e.g. a default-argument call evaluated under a JobEnv inherits the caller's hash although its context carries the callee's update_context overrides)",
+                m.rel,
+                s_.lineno,
+            )
     # no other writer of context_hash
     for mod in repo.modules.values():
         for n in ast.walk(mod.tree):
